@@ -44,7 +44,10 @@ RULES = {'C08': 'each run = a table over integer/real/text/varchar/boolean/'
                 'unicode, empty strings, all-null columns, empty tables), '
                 'then a history of insert (before discovery: must be '
                 'absorbed) / discover(rex on/off) / verify / rogue single-row '
-                'insert breaking exactly one discovered constraint / verify; '
+                'insert breaking exactly one discovered constraint / verify; then '
+                'optionally the same table name re-created with re-declared '
+                'column types (drop+create or another database) and the '
+                'history again; '
                 'non-trivial = a rogue write or rex discovery or awkward '
                 'text; distinct = distinct (column types, history, rogue '
                 'kind, verdict) shapes'}
